@@ -310,6 +310,12 @@ def plan_c04(pid, rng, quick):
         st["props"] = ["C04"]
     return plan
 
+ALL_TYPES = {"traces": ["SPANS", "RESOURCE_ATTRS", "SCOPE_ATTRS", "SPAN_ATTRS", "SPAN_EVENTS", "SPAN_LINKS", "SPAN_EVENT_ATTRS", "SPAN_LINK_ATTRS"],
+             "logs": ["LOGS", "RESOURCE_ATTRS", "SCOPE_ATTRS", "LOG_ATTRS"],
+             "metrics": ["UNIVARIATE_METRICS", "RESOURCE_ATTRS", "SCOPE_ATTRS", "NUMBER_DATA_POINTS", "SUMMARY_DATA_POINTS", "HISTOGRAM_DATA_POINTS",
+                         "EXP_HISTOGRAM_DATA_POINTS", "NUMBER_DP_ATTRS", "SUMMARY_DP_ATTRS", "HISTOGRAM_DP_ATTRS", "EXP_HISTOGRAM_DP_ATTRS",
+                         "NUMBER_DP_EXEMPLARS", "HISTOGRAM_DP_EXEMPLARS", "EXP_HISTOGRAM_DP_EXEMPLARS", "NUMBER_DP_EXEMPLAR_ATTRS",
+                         "HISTOGRAM_DP_EXEMPLAR_ATTRS", "EXP_HISTOGRAM_DP_EXEMPLAR_ATTRS"]}
 RELABEL = {"traces": ["SPANS", "SPAN_ATTRS", "SPAN_EVENTS", "RESOURCE_ATTRS", "LOGS", "UNKNOWN"],
            "logs": ["LOGS", "LOG_ATTRS", "RESOURCE_ATTRS", "SPANS", "UNKNOWN"],
            "metrics": ["UNIVARIATE_METRICS", "NUMBER_DATA_POINTS", "NUMBER_DP_ATTRS", "RESOURCE_ATTRS", "SPANS", "UNKNOWN"]}
@@ -381,6 +387,14 @@ def plan_c07(pid, rng, quick):
                         bs.append({"resend": 1})
                     plan.append({"id": "established/%s/p%d/dup%d-%s" % (signal, prefix, i, "-".join(map(str, second))), "signal": signal,
                                  "opts": {}, "batches": bs, "props": [], "mode": 0, "nowire": True})
+        # the main record under every other label the signal knows (with and without a genuine payload of that type in
+        # the batch) and under foreign labels: the batch still holds the main record, so success without it is a loss
+        for t in ALL_TYPES[signal][1:] + ["UNKNOWN", "MULTIVARIATE_METRICS", {"traces": "LOGS", "logs": "SPANS", "metrics": "SPANS"}[signal]]:
+            for variant in (0, 1):
+                first = uniform_batch(rng, 2) if variant == 0 else ramp(signal, 9, 3, 0, RAMP_COLS[signal][1], nodump=False)
+                bs = [first, {"resend": 1, "faults": [["relabel", 0, t]]}, {"resend": 2}]
+                plan.append({"id": "main-as/%s/%s/%d" % (signal, t, variant), "signal": signal, "opts": {}, "batches": bs,
+                             "props": [], "mode": 0, "nowire": True})
         # healthy streams: a well-formed batch on a healthy stream is decoded completely
         for i in range(20 if quick else 1200):
             plan.append(otap.rand_stream(rng, "healthy/%s/%d" % (signal, i), signal, []))
